@@ -316,8 +316,3 @@ func writeJSON(path string, v interface{}) {
 	}
 }
 
-// tryReplay: if the solver produced a model, decode and replay it on the real code (per-family adapters).
-// Returns true when a failing input was reproduced.
-func (eng *Engine) tryReplay(r FuncResult, o OblResult, rep map[string]interface{}) bool {
-	return false
-}
